@@ -261,6 +261,15 @@ def run_case(case):
         G = nx.gnp_random_graph(n, rng.choice([0.4, 0.6, 0.8, 1.0]), seed=rng.randrange(1 << 30))
         if rng.random() < 0.4:
             G = nx.relabel_nodes(G, dict(zip(range(n), rng.sample(range(40), n))))
+        if rng.random() < 0.2 and G.number_of_edges() and G.number_of_edges() <= 8:
+            # "all substrate graphs": a MultiGraph with parallel edges - every edge INSTANCE is an edge that can be deleted
+            M = nx.MultiGraph()
+            M.add_nodes_from(G.nodes())
+            for a, b in G.edges():
+                for _ in range(rng.choice([1, 1, 2, 3])):
+                    M.add_edge(a, b)
+            G = M
+            res.count("multigraph_substrates")
         nodes = list(G.nodes())
         nt = False
         snap = (sorted(G.nodes()), sorted(map(tuple, map(sorted, G.edges()))))
